@@ -19,6 +19,7 @@ type Object struct {
 	PoolCap  bool   // allocated by bytespool (cap is a valid size class)
 	Label    string // where it came from (debug / reports)
 	RelPos   string
+	Gen      int // incremented every time a pool hands the object out again
 }
 
 type MapEntry struct{ K, V Value }
@@ -62,6 +63,7 @@ type Goroutine struct {
 	done   bool
 	wait         *waitDesc
 	resumed      bool
+	resumeStep   int
 	timerPending bool
 }
 
@@ -184,7 +186,7 @@ func (s *State) clone(e *Engine) *State {
 	n.trace = s.trace[:len(s.trace):len(s.trace)]
 	n.gs = make([]*Goroutine, len(s.gs))
 	for i, g := range s.gs {
-		ng := &Goroutine{id: g.id, done: g.done, wait: g.wait, resumed: g.resumed, timerPending: g.timerPending}
+		ng := &Goroutine{id: g.id, done: g.done, wait: g.wait, resumed: g.resumed, resumeStep: g.resumeStep, timerPending: g.timerPending}
 		ng.frames = make([]*Frame, len(g.frames))
 		for j, f := range g.frames {
 			nf := *f
